@@ -1,6 +1,8 @@
 import NfcVerif.Lemmas.PeerDep
 import NfcVerif.Lemmas.PeerPax
 import NfcVerif.Lemmas.PeerDispatch
+import NfcVerif.Lemmas.PeerT3
+import NfcVerif.Lemmas.PeerDecode
 import NfcVerif.Props.C11
 /-!
 # Property C07: bytes from the remote peer cannot crash or hang the stack
@@ -17,9 +19,9 @@ found has a counter-example theorem whose witness is replayed by the L3 oracle.
 * `dep_rtox_total`          the RTOX value taken from a timeout extension PDU: value or `ProtocolError`;
                             `dep_target_rtox_total`, `dep_after_deselect_total` likewise
 * `pax_total`               `llc.activate` on any general bytes: activated or `False`, never an exception
-* `t3emu_total_partial`     `process_command` on any command, tagtool's callbacks: response / `None`
-                            (partial: `KeyError`/`ValueError` of the transcription are not excluded by proof)
+* `t3emu_total`             `process_command` on any command, tagtool's callbacks: response / `None`
 * `dispatch_total`          `dispatch` of any PDU on any well-formed SAP table: no exception, table stays well formed
+* `peer_octets_dispatch_total`  any octet string: DecodeError, or a PDU whose dispatch raises nothing and never waits
 * `linkloop_never_waits`    `dispatch` of any PDU (aggregates included) on any SAP table never reaches
                             a wait on the link-loop thread
 * `peer_bytes_flow`         every exception the decoders can raise ends the run loop through
@@ -60,10 +62,17 @@ theorem dep_decode_counterexample :
   have := h false false [] .index (by decide)
   rcases this with h | h <;> cases h
 
-/-- the model of the code as found IS the frame decoder of property C04 -/
-theorem dep_decode_asFound_is_c04 (b106 req : Bool) (frame : Bytes) :
-    decodeFrameV false b106 req frame = NfcDep.decodeFrame b106 req frame :=
-  Peer.decodeFrameV_asFound b106 req frame
+/-- the repaired frame model IS the frame decoder of property C04 (whose model follows the repaired
+`dep.py`), so `dep_decode_total` is a statement about the decoder inside C04's state machines too -/
+theorem dep_decode_is_c04 (b106 req : Bool) (frame : Bytes) :
+    decodeFrameV true b106 req frame = NfcDep.decodeFrame b106 req frame :=
+  Peer.decodeFrameV_repaired b106 req frame
+
+theorem dep_decode_total_c04 (b106 req : Bool) (frame : Bytes) :
+    Safe FrameErr (NfcDep.decodeFrame b106 req frame) := by
+  rw [← Peer.decodeFrameV_repaired]; exact Peer.dep_decode_total b106 req frame
+
+example : NfcDep.decodeFrame false false [] = .error .transmission := by decide
 
 /-- `Initiator.exchange`: the RTOX value of a timeout extension response is a value in 1..59 or
 `ProtocolError`, for every data field (repaired). -/
@@ -99,13 +108,14 @@ theorem pax_counterexample :
 
 /-! ## Type 3 Tag emulation -/
 
-/-- `process_command` (repaired) on ANY command: a response, `None`, or the `TypeError` of tagtool's
-write callback of the read-only service.  PARTIAL: `KeyError` (dictionary of block counts) and
-`ValueError` (response longer than 255 octets) of the transcription are not excluded by this
-proof - they need invariants of `countDict` / the 15-block limit; the oracle never saw them. -/
-theorem t3emu_total_partial (e : T3Emu.Emu) (cmd : Bytes) :
-    Safe (fun x => x = .type_ ∨ x = .key ∨ x = .value) (processCommandR e cmd) :=
-  Peer.processCommandR_safe e cmd
+/-- `process_command` (repaired) on ANY command, for an emulation whose IDm/PMm/system code have
+their sizes (8/8/2, slices of SENSF_RES): a response or `None`; the only exception left is the
+`TypeError` of tagtool's own write callback of the read-only service (`lambda: False` called with
+four arguments) - application code, reached only by a well-formed write command to service 000Bh.
+No `IndexError`, `KeyError` (block-count dictionary) or `ValueError` (response above 255 octets). -/
+theorem t3emu_total (e : T3Emu.Emu) (hl : e.idm.length = 8 ∧ e.pmm.length = 8 ∧ e.sys.length = 2) (cmd : Bytes) :
+    Safe (fun x => x = .type_) (processCommandR e cmd) :=
+  Peer.processCommandR_total e hl cmd
 
 example : processCommandR ⟨[1,2,3,4,5,6,7,8], [0,0,0,0,0,0,0,0], [0x12, 0xFC], []⟩ [1] =
     .ok (none, [], []) := by decide
@@ -131,6 +141,21 @@ extends to every sequence of received PDUs. -/
 theorem dispatch_total (f : Fix) (hf : f.f39 = true) (w : Llc) (hw : LlcOk w) (p : Pdu.Pdu) (hp : PduOk p) :
     ∃ w', dispatch f w p = .ok (some w') ∧ LlcOk w' :=
   Peer.dispatch_total f hf w hw p hp
+
+/-- ANY octet string received from the peer, at any moment (any well-formed SAP table, sockets of any
+kind in any state): `pdu.decode` raises `DecodeError` (-> `llc.exchange` returns None, `peer_bytes_flow`)
+or yields a PDU whose `dispatch` raises nothing, never waits, and leaves the table well formed. -/
+theorem peer_octets_dispatch_total (f : Fix) (hf : f.f39 = true) (w : Llc) (hw : LlcOk w) (b : Bytes) (hb : IsBytes b) :
+    Pdu.Impl.decode b = .error .decodeError ∨
+    ∃ p w', Pdu.Impl.decode b = .ok p ∧ dispatch f w p = .ok (some w') ∧ LlcOk w' := by
+  cases hd : Pdu.Impl.decode b with
+  | error e => left; rw [pdu_decode_total b e hd]
+  | ok p =>
+    right
+    obtain ⟨w', h1, h2⟩ := dispatch_total f hf w hw p (Peer.decode_pduOk hb hd)
+    exact ⟨p, w', rfl, h1, h2⟩
+
+example : IsBytes [0x90, 0xE0] := by decide
 
 /-- the established data link connection of the witness -/
 def estab36 : Sock := ⟨.dlc, .established, 36, some 32, true, 0, 2, 128, 0, 0, 0, 0, []⟩
@@ -203,7 +228,7 @@ theorem connect_returns_normally (act : Py Bool) (run : Option Flow)
 
 example : connectLlcp (.ok false) none = some ⟨.returned, false⟩ := rfl
 
-/-- `connect(card=..)`: a `process_command` that returns (`t3emu_total_partial`) and any
+/-- `connect(card=..)`: a `process_command` that returns (`t3emu_total`) and any
 `CommunicationError` from the exchange keep the loop going or end `connect()` normally -/
 theorem card_loop_contains {α : Type} (a : α) (e : Exc) (h : Peer.isComm e = true) :
     cardTurn (.ok a : Py α) (.error e) = none ∨ cardTurn (.ok a : Py α) (.error e) = some .returned :=
